@@ -9,6 +9,7 @@ import (
 	"path/filepath"
 	"runtime/debug"
 	"sort"
+	"strings"
 )
 
 // Ctx is the state shared by the rules of one run.
@@ -58,6 +59,41 @@ func main() {
 		}
 		return
 	}
+	if *prop == "all" || strings.Contains(*prop, ",") {
+		// development mode: several properties over one load of the program (used by the regression scripts)
+		var ids []string
+		if *prop == "all" {
+			for id := range props {
+				ids = append(ids, id)
+			}
+		} else {
+			ids = strings.Split(*prop, ",")
+		}
+		sort.Strings(ids)
+		if *evidence == "" {
+			*evidence = os.TempDir()
+		}
+		worst := 0
+		var shared *Ctx
+		for _, id := range ids {
+			f, ok := props[id]
+			if !ok {
+				fmt.Fprintf(os.Stderr, "unknown property %q\n", id)
+				os.Exit(2)
+			}
+			ctx := &Ctx{Repo: *repo, Verif: *verif, Tier: *tier, R: NewReport(id, *tier)}
+			if shared != nil {
+				ctx.k1, ctx.k2, ctx.k2err = shared.k1, shared.k2, shared.k2err
+			}
+			rc := run(ctx, f, filepath.Join(*evidence, id+".json"))
+			shared = ctx
+			fmt.Printf("RESULT %s rc=%d\n", id, rc)
+			if rc > worst {
+				worst = rc
+			}
+		}
+		os.Exit(worst)
+	}
 	f, ok := props[*prop]
 	if !ok {
 		fmt.Fprintf(os.Stderr, "unknown property %q\n", *prop)
@@ -86,12 +122,16 @@ func run(ctx *Ctx, f propFn, evidence string) (code int) {
 			}
 		}
 	}()
-	k1, err := Load(ctx.Repo, "amd64")
-	if err != nil {
-		fmt.Printf("INTERNAL: %v\n", err)
-		return 2
+	k1 := ctx.k1
+	if k1 == nil {
+		var err error
+		k1, err = Load(ctx.Repo, "amd64")
+		if err != nil {
+			fmt.Printf("INTERNAL: %v\n", err)
+			return 2
+		}
+		ctx.k1 = k1
 	}
-	ctx.k1 = k1
 	ctx.R.SetConfig("linux/amd64")
 	ctx.R.Stat("packages_amd64", len(k1.Pkgs))
 	ctx.R.Stat("functions_amd64", len(k1.Funcs))
